@@ -44,6 +44,10 @@ pub fn generate(rng: &mut Rng, tier: Tier) -> Scn {
         // file formats carry no scripted filters
         for a in &mut configs[0].appenders {
             a.filters.retain(|f| matches!(f, l::FilterSpec::Threshold { .. }));
+            if init_path == 2 {
+                // real file appenders do not fail on demand
+                a.fail_num = 0;
+            }
         }
     }
     let nh = if tier == Tier::Thorough { rng.range(2, 12) } else { rng.range(1, 6) } as usize;
